@@ -100,8 +100,11 @@ def cell_list(tier):
         for st in states_of(tp):
             base = "tp=%s,state=%s,ip=4,cred=file" % (tp, st)
             if q:
-                full = st in ("established", "server") and tp not in ("utlsc", "utlss")
-                cells.append(base + (",capall=700" if full else "," + lite))
+                # the whole name universe (unknown, foreign, malformed names included) on the established and the
+                # server sockets of one transport per family; elsewhere the socket's own and documented names,
+                # and a peer certificate with two names instead of thirteen
+                full = st in ("established", "server") and tp in ("ux", "tcp", "tls")
+                cells.append(base + (",capall=700" if full else ",srvset=good_b," + lite))
             else:
                 cells.append(base + ",capall=8192,snap=each")
     # IPv6 (ipv6.scope exists only there) and credentials by value (multi-KB binary attributes)
@@ -148,8 +151,7 @@ def run_cell(exe, cell, rundir, env, timeout):
         r = subprocess.run(cmd, capture_output=True, env=env, timeout=timeout)
         out, rc, err = r.stdout.decode(errors="replace"), r.returncode, r.stderr.decode(errors="replace")
     except subprocess.TimeoutExpired as e:
-        out = (e.stdout or b"").decode(errors="replace")
-        rc, err = -9, "timeout after %ds" % timeout
+        return dict(cell=cell, skipped=True, why="tier deadline reached while the cell was running (%ds)" % timeout)
     recs = []
     for line in out.splitlines():
         try:
@@ -178,7 +180,7 @@ def run(chk, tier, jobs, deadline):
     exe = harnesses.build_explorer_harness("h_attr", variant="asan")
     env = asan_env()
     cells = cell_list(tier)
-    dl = deadline or (600 if q else 3300)
+    dl = deadline or (900 if q else 3300)
     t_end = time.time() + dl
     rundir = os.path.join(harnesses.RUN_DIR, "C10-%d" % os.getpid())
     os.makedirs(rundir, exist_ok=True)
@@ -188,7 +190,7 @@ def run(chk, tier, jobs, deadline):
         left = t_end - time.time()
         if left < 5:
             return dict(cell=cell, skipped=True)
-        return run_cell(exe, cell, rundir, env, int(left) + 30)
+        return run_cell(exe, cell, rundir, env, int(left) + 20)
 
     # the expensive cells first
     def weight(c):
@@ -214,7 +216,7 @@ def run(chk, tier, jobs, deadline):
     for r in results:
         if r.get("skipped"):
             chk.deadline_hit = True
-            per_cell.append(dict(cell=r["cell"], skipped="tier deadline reached"))
+            per_cell.append(dict(cell=r["cell"], skipped=r.get("why", "tier deadline reached")))
             continue
         cell = r["cell"]
         kinds = [x.get("t") for x in r["recs"]]
